@@ -6,6 +6,7 @@ CONSTANTS
   DeleteByName = FALSE
   ClaimIgnoresCancel = FALSE
   PrefixCancellers = {}
+  BlockingSend = FALSE
   DropOnClaim = FALSE
   MaxRuns = 3
   ScenLen = 22
